@@ -165,7 +165,8 @@ def _num(s):
 
 def normalise(f, u, off, numeric):
     o = dict(count=0, total=0, min=0, max=0, mean=0, varn=0, var=0, sdn2=0, sd2=0, medlo=0, medhi=0, numeric=0)
-    th = lambda x: int(round(x * 1000))  # noqa
+    # (TLC integers are 32 bit and the clauses multiply by n*n: a value far outside the data range is clamped -- it fails its clause either way)
+    th = lambda x: max(-20000000, min(20000000, int(round(x * 1000))))  # noqa
     o['count'] = int(f['count']) if f['count'] else 0
     n = o['count']
     if numeric:
@@ -229,7 +230,7 @@ def main(tier):
         trans += max(1, r2.generated)
         vs = {v['tid'] - 1: v for v in r2.prints if 'tid' in v}
         if len(vs) != len(part):
-            raise tlc.TLCFailure('ObsStats returned %d verdicts for %d cases' % (len(vs), len(part)))
+            raise tlc.TLCFailure('ObsStats returned %d verdicts for %d cases\n%s\n%s' % (len(vs), len(part), (r2.error_trace or '')[:1500], r2.stdout_tail[-1200:]))
         for j, (d, o) in enumerate(part):
             f = vs[j]['failed']
             if f:
